@@ -94,6 +94,12 @@ CHECKS["C04"] = dict(level="fault_enumeration", engine="E3-crash-cuts",
    note="Trusted: S3 semantics (atomic objects, an in-flight request landed or not); groups larger than 12 unordered requests are covered by prefixes, single omissions and singletons (monotonicity argument in engine/crash.go) and reported as exhaustive:false.",
    ref="§5 C04")
 
+CHECKS["C14"] = dict(level="fault_enumeration", engine="E3-faults",
+   technique="exhaustive single-fault enumeration: every object-store request position of the connection under test x 3 error kinds x 3 modes, replayed on the real extension and compared with a model of the acknowledged writes",
+   text="Five scenarios (multi-level tree with two unmerged heads: open/INSERT/UPDATE/DELETE/range and descending SELECT; single node: multi-statement transaction; multi-level with node cache; refresh with two heads + s3db_version + s3db_changes; vacuum then SELECT/INSERT). The fault-free run counts the requests of the connection (about 470 positions in total); each position is failed with {transport error, AWS-style 500, cancelled context} in the modes {fails before taking effect, takes effect then fails, persistent until the statement ends}: ~4200 runs. Every statement must return an error or the complete correct result (reads are compared row by row with the model, so a truncated scan is a violation); the worker must not die (a Go panic in an SQLite callback kills it) nor exceed the request budget; after the fault clears a new connection and the refreshed connection must show the acknowledged writes plus a subset of the errored write statements, each wholly in or out, and accept a write.",
+   note="Single fault (or one persistent burst) per run; 'no such object' answers are not injected (C09). Hang detection = request budget / coarse watchdog, never a short wall-clock oracle.",
+   ref="§5 C14")
+
 NOT_YET = {}
 
 props = [json.loads(l) for l in open("properties.jsonl")]
